@@ -136,9 +136,15 @@ def extra(tier, rng, workdir):
             red.append({"what": "correspondence", "suite": "ser", "detail": "Serialize failed (class %s) on a generated value of %s"
                         % (o[:1], x["T"]), "value": cl.summarize(x["v"])})
             continue
-        pyb, sites = cl.encode(T[x["T"]]["w"], x["v"])
+        try:
+            pyb, sites = cl.encode(T[x["T"]]["w"], x["v"])
+        except Exception as e:   # the translated writer format does not fit the value universe any more: fails closed
+            pyb, sites = None, []
+            if not any(r.get("suite") == "python-encoder-format" and r.get("type") == x["T"] for r in red):
+                red.append({"what": "correspondence", "suite": "python-encoder-format", "type": x["T"],
+                            "detail": "the writer format regenerated from the source cannot encode a generated value: %r" % (e,)})
         x["sites"] = sites
-        if pyb != x["real"]:
+        if pyb is not None and pyb != x["real"]:
             red.append({"what": "correspondence", "suite": "python-encoder", "type": x["T"], "value": cl.summarize(x["v"]),
                         "real": x["real"].hex(), "python": pyb.hex()})
         acc = []
